@@ -81,6 +81,12 @@ func ratingTable(r *Rng, n int) (xs, ys []float64) {
 			ys[i] = r.F01()
 		}
 	}
+	// "all parameter values": proportions need not lie in [0,1] (the split must still be lossless)
+	if n >= 1 && r.Chance(0.15) {
+		for k := 0; k < 1+n/3; k++ {
+			ys[r.Intn(n)] = r.Uniform(-0.5, 1.6)
+		}
+	}
 	if n >= 2 && r.Chance(0.04) && ratingNaN {
 		xs[1] = xs[0]
 	}
